@@ -945,6 +945,14 @@ impl LdapConnAsync {
                             msgmap.1.remove(&id);
                         }
                     } else if let Some(tx) = self.resultmap.remove(&id) {
+                        // An IntermediateResponse (RFC 4511, 4.13) is not the result of the
+                        // operation. A single-result operation has no way of handing it to its
+                        // caller, so it's dropped, and the operation keeps waiting for its result.
+                        if matches!(tag, Tag::StructureTag(ref protoop) if protoop.class == lber::common::TagClass::Application && protoop.id == 25) {
+                            warn!("intermediate response ignored, op={}", id);
+                            self.resultmap.insert(id, tx);
+                            continue;
+                        }
                         if let Err(e) = tx.send((tag, controls)) {
                             warn!("ldap result send error: {:?}", e);
                         }
